@@ -80,6 +80,12 @@ type Case struct {
 	// PriorBroken > 0: before the restore under test an earlier restore of the same table breaks after PriorBroken records of a stream
 	// of stale pairs that is big enough to have proposed at least one batch (a retried restore / a recovery interrupted half way)
 	PriorBroken int `json:"prior_broken,omitempty"`
+	// RecvLimit > 0 (snapshot source): the follower's snapshot receive rate limit in bytes per second (replication.max-snapshot-recv-
+	// bytes-per-second); chunks of the stream can be larger than what the limiter lets through in one go
+	RecvLimit int `json:"recv_limit,omitempty"`
+	// Sabotage (snapshot source): while the recovery is loading, the follower's table is deleted once (an operator, the table
+	// reconciliation) - that recovery may fail; the table is created again and recovered once more, which must give the captured content
+	Sabotage bool `json:"sabotage,omitempty"`
 }
 
 func genKVs(t *rapid.T, label string, minN, maxN int, large bool) []KV {
@@ -151,6 +157,10 @@ func genCase(t *rapid.T) Case {
 	}
 	if c.Source == "snapshot" {
 		c.Writers = rapid.IntRange(0, 2).Draw(t, "writers") == 0
+		if rapid.IntRange(0, 3).Draw(t, "recvlimit") == 0 {
+			c.RecvLimit = rapid.SampledFrom([]int{512, 4096, 65536, 1 << 20}).Draw(t, "limit")
+		}
+		c.Sabotage = !c.Writers && rapid.IntRange(0, 5).Draw(t, "sabotage") == 0
 	} else if rapid.IntRange(0, 3).Draw(t, "corrupt") == 0 {
 		c.Corrupt = rapid.SampledFrom([]int{-1, -2, 0}).Draw(t, "corruptKind")
 		if c.Corrupt == 0 {
@@ -342,8 +352,12 @@ func run(c Case, o *vt.Obs) *vt.Failure {
 	switch c.Source {
 	case "snapshot":
 		mgr := replication.NewManager(target.E, queue, leaderConn, replication.Config{ReconcileInterval: time.Hour, Workers: replication.WorkerConfig{
-			PollInterval: time.Hour, LeaseInterval: time.Hour, LogRPCTimeout: 30 * time.Second, SnapshotRPCTimeout: 120 * time.Second, MaxRecoveryInFlight: 1}})
+			PollInterval: time.Hour, LeaseInterval: time.Hour, LogRPCTimeout: 30 * time.Second, SnapshotRPCTimeout: 120 * time.Second, MaxRecoveryInFlight: 1,
+			MaxSnapshotRecv: uint64(c.RecvLimit)}})
 		w := mgr.VerifWorker(name)
+		if c.RecvLimit > 0 {
+			o.Label("snapshot-receive-rate-limited")
+		}
 		// optional concurrent writers on the leader: the stream must still be the image at the index it declares
 		type stamp struct {
 			rev uint64
@@ -372,9 +386,44 @@ func run(c Case, o *vt.Obs) *vt.Failure {
 			}()
 			time.Sleep(2 * time.Millisecond)
 		}
+		var sabotaged atomic.Bool
+		if c.Sabotage {
+			wg.Add(1)
+			go func() {
+				defer wg.Done()
+				for {
+					select {
+					case <-stop:
+						return
+					default:
+					}
+					if tb, err := target.E.Manager.GetTable(name); err == nil && tb.RecoverID != 0 {
+						if target.E.DeleteTable(name) == nil {
+							sabotaged.Store(true)
+						}
+						return
+					}
+					time.Sleep(200 * time.Microsecond)
+				}
+			}()
+		}
 		rerr := w.Recover()
 		close(stop)
 		wg.Wait()
+		if sabotaged.Load() {
+			o.Label("table-deleted-while-its-recovery-was-loading")
+			// whatever that recovery reported: the table is set up again and recovered once more
+			_ = target.E.Manager.VerifReconcile()
+			if _, err := target.E.GetTable(name); err != nil {
+				if _, err := target.CreateTable(name); err != nil {
+					vt.Inconclusive("C07 re-create target table: " + err.Error())
+					return nil
+				}
+			}
+			if rerr != nil {
+				rerr = w.Recover()
+			}
+		}
 		if rerr != nil {
 			return vt.Failf(prop+"/recover-error", 1, "worker recovery from the leader snapshot stream failed: %v (max-in-mem %d)", rerr, maxInMem)
 		}
